@@ -91,7 +91,18 @@ impl SimpleSerializer for UnionBuilder {
         let mut ctx = BTreeMap::new();
         self.annotate(&mut ctx);
 
-        try_(|| self.serialize_variant(0)?.serialize_default()).ctx(&ctx)
+        // placeholder rows (below a null parent) go to the first variant that is known: an unknown
+        // variant cannot hold any row
+        let variant_index = self
+            .fields
+            .iter()
+            .position(|(builder, _)| !matches!(builder, ArrayBuilder::UnknownVariant(_)))
+            .unwrap_or(0);
+        try_(|| {
+            self.serialize_variant(u32::try_from(variant_index)?)?
+                .serialize_default()
+        })
+        .ctx(&ctx)
     }
 
     fn serialize_unit_variant(
